@@ -100,6 +100,49 @@ fn rand_opts(rng: &mut Rng) -> String {
     }
 }
 
+/// Entry-list lab (C12): `threads` threads, released together, each push `per` nodes into one
+/// fresh `EntryList`; the observation is the smallest number of distinct entries the list yielded
+/// over `rounds` rounds (the head included).
+pub fn gen_elist(rng: &mut Rng, n: usize) -> Vec<String> {
+    let mut out = vec!["elist 1 50 2".to_string(), "elist 2 200 10".to_string(), "elist 8 500 20".to_string()];
+    while out.len() < n {
+        out.push(format!("elist {} {} {}", 2 + rng.below(15), 50 + rng.below(800), 5 + rng.below(20)));
+    }
+    out.truncate(n.max(1));
+    out
+}
+
+pub fn exec_elist(toks: &[&str]) -> String {
+    use divan::__private::EntryList;
+    let v: Vec<usize> = toks.iter().map(|t| t.parse().unwrap()).collect();
+    let (threads, per, rounds) = (v[0], v[1], v[2]);
+    let mut worst = usize::MAX;
+    for _ in 0..rounds {
+        let head: &'static EntryList<usize> = Box::leak(Box::new(EntryList::new(Box::leak(Box::new(usize::MAX)))));
+        let barrier = std::sync::Arc::new(std::sync::Barrier::new(threads));
+        let handles: Vec<_> = (0..threads)
+            .map(|t| {
+                let barrier = barrier.clone();
+                std::thread::spawn(move || {
+                    let nodes: Vec<&'static EntryList<usize>> = (0..per)
+                        .map(|k| &*Box::leak(Box::new(EntryList::new(&*Box::leak(Box::new(t * per + k))))))
+                        .collect();
+                    barrier.wait();
+                    for n in nodes {
+                        head.push(n);
+                    }
+                })
+            })
+            .collect();
+        for h in handles {
+            h.join().unwrap();
+        }
+        let seen: std::collections::HashSet<usize> = head.iter().copied().collect();
+        worst = worst.min(seen.len());
+    }
+    worst.to_string()
+}
+
 pub fn gen_ovw(rng: &mut Rng, n: usize) -> Vec<String> {
     (0..n).map(|_| format!("ovw {} {}", rand_opts(rng), rand_opts(rng))).collect()
 }
@@ -349,7 +392,7 @@ const FN_NAMES: &[&str] = &[
     "r#match", "r#fn", "add", "mul", "x9", "x10", "X", "from_iter", "über", "naïve", "日本",
 ];
 const MOD_NAMES: &[&str] = &["m", "m1", "m2", "m10", "util", "inner", "r#mod", "r#loop", "a", "bench", "zz", "ö"];
-const DISPLAY: &[&str] = &["Custom", "custom name", "1", "02", "Ünï", "a::b", "x<y>", "bench", "a,b"];
+const DISPLAY: &[&str] = &["Custom", "custom name", "1", "02", "Ünï", "a::b", "x<y>", "bench", "a,b", "a(b", "x[0"];
 const ARG_LISTS: &[&[&str]] = &[
     &["0", "1", "2"],
     &["10", "9", "1", "-3", "100"],
@@ -358,6 +401,7 @@ const ARG_LISTS: &[&[&str]] = &[
     &["x1", "x10", "x2"],
     &["true", "false"],
     &["b", "a", "b"],
+    &["(a", "[b", "c)"],
     &[""],
     &["é", "z", "日本"],
     &["1", "1000", "100", "10"],
@@ -495,7 +539,8 @@ impl Gen<'_> {
                     };
                     let consts: (char, Vec<String>) = if with_c {
                         match self.rng.below(3) {
-                            0 => ('i', [vec!["1", "2", "4"], vec!["16", "4", "-1", "100"], vec![], vec!["0"]][self.rng.below(4) as usize].iter().map(|s| s.to_string()).collect()),
+                            // (several negatives: their names sort the other way round than their values)
+                            0 => ('i', [vec!["1", "2", "4"], vec!["16", "4", "-1", "100"], vec![], vec!["0"], vec!["-5", "3", "-10", "0", "-1", "20"]][self.rng.below(5) as usize].iter().map(|s| s.to_string()).collect()),
                             1 => ('s', vec![hex("a"), hex("B"), hex("a10"), hex("a9")]),
                             _ => ('c', vec![hex("x"), hex("é")]),
                         }
@@ -646,6 +691,16 @@ pub fn config(rng: &mut Rng, act: &str, paths: &[String], bench_mode: bool) -> V
         }
         if rng.chance(1, 8) {
             c.push(format!("o.sk={}", rng.below(2)));
+        }
+        // time bounds at run time: values that cannot influence how many rounds run
+        // (a ceiling of 30 s / 1 h, a floor of zero), plus the zero ceiling (nothing runs)
+        if rng.chance(1, 6) {
+            // (the zero ceiling only outside bench mode: which continuation rows a benchmark without any
+            // sample gets is not modelled)
+            c.push(format!("o.maxt={}", [30_000_000_000u64, 3_600_000_000_000, 30_000_000_000, 0][rng.below(if bench_mode { 3 } else { 4 }) as usize]));
+        }
+        if rng.chance(1, 8) {
+            c.push("o.mint=0".into());
         }
         for k in ["items", "bytes", "chars", "cycles"] {
             if rng.chance(1, 8) {
